@@ -1569,6 +1569,9 @@ func (fr *Frame) autoFrameInvs(h *ssa.BasicBlock) []autoInv {
 	if !fr.top || fr.fc == nil || !fr.fc.HasMod || c.dry {
 		return nil
 	}
+	if fr.fc.Opts["trust-frame"] {
+		return nil
+	}
 	if fr.declMods == nil {
 		return nil
 	}
